@@ -32,7 +32,11 @@ const L2Rule = "L2 PART (one child process per scenario; the complete real Chain
 	"(code, reason) class of ParseBroadcastError (invalid, nonstandard, insufficient fee, duplicate/in-mempool, /already-known, /mempool-conflict, btcd's " +
 	"already-spent, already-have, already-exists, unknown reasons and codes); reject WITHOUT requesting; silent; request twice (with and without reject); " +
 	"request then reject >= 4.5 x QueryRejectTimeout later; request then reject naming a different hash; disconnect on the inv). Scenario 0 is fixed: one " +
-	"peer requests and accepts, one rejects as invalid without requesting, the rest stay silent. Families by k: verdict (5-8 SendTransaction calls for " +
+	"peer requests and accepts, one rejects as invalid without requesting, the rest stay silent. Scenario 16 is fixed in structure (delays seeded): a peer " +
+	"answers the inv with a reject naming ANOTHER transaction (the previously broadcast one or an unknown hash) and 30-100 ms later requests the announced " +
+	"one; then it accepts while a second peer requests and rejects as invalid / it rejects as the only replying peer / it accepts, followed by a block. " +
+	"DELIVERY: a peer whose first getdata for the transaction was written >= 4 x QueryRejectTimeout before the call returned, without an earlier reject of " +
+	"that transaction from it, must be sent the transaction (sooner return = counted only). Families by k: verdict (5-8 SendTransaction calls for " +
 	"unique real witness transactions spending generator UTXOs, sequential and 2-3 concurrent, reaction profiles uniform / everybody-rejects / " +
 	"around-the-invalid-threshold / rejecters-that-never-request / duplicate-codes / late-and-other-hash), rebroadcast (accepted, mempool-duplicate and " +
 	"rejected transactions, then 2 blocks not containing them announced by every peer by inv or headers; a further SendTransaction racing the " +
@@ -67,11 +71,14 @@ type l2Rec struct {
 	pending map[string]bool // peer|tx -> an inv was received and the tx not yet reacted to
 	late    time.Duration
 	wg      sync.WaitGroup
+	prev    map[chainhash.Hash]chainhash.Hash // tx -> transaction of the call issued before it
+	last    *chainhash.Hash
 }
 
 func newL2Rec(w *l2.World) *l2Rec {
 	return &l2Rec{w: w, window: neutrino.QueryRejectTimeout, script: map[chainhash.Hash]map[string]L2Reaction{},
-		pending: map[string]bool{}, late: neutrino.QueryRejectTimeout*9/2 + 50*time.Millisecond}
+		pending: map[string]bool{}, late: neutrino.QueryRejectTimeout*9/2 + 50*time.Millisecond,
+		prev: map[chainhash.Hash]chainhash.Hash{}}
 }
 
 // noteLocked appends a fact; rc.mu must be held.
@@ -119,7 +126,35 @@ func (rc *l2Rec) snapshot() []l2Ev {
 func (rc *l2Rec) setScript(tx chainhash.Hash, m map[string]L2Reaction) {
 	rc.mu.Lock()
 	rc.script[tx] = m
+	if _, ok := rc.prev[tx]; !ok && rc.last != nil {
+		rc.prev[tx] = *rc.last
+	}
+	h := tx
+	rc.last = &h
 	rc.mu.Unlock()
+}
+
+// foreignHash is the hash a foreignfirst reject names instead of tx.
+func (rc *l2Rec) foreignHash(tx chainhash.Hash, r L2Reaction) chainhash.Hash {
+	rc.mu.Lock()
+	defer rc.mu.Unlock()
+	if p, ok := rc.prev[tx]; ok && r.Foreign == "prev" {
+		return p
+	}
+	other := tx
+	other[0] ^= 0xff
+	other[31] ^= 0x55
+	return other
+}
+
+// later runs f after d on a goroutine the scenario waits for.
+func (rc *l2Rec) later(d time.Duration, f func()) {
+	rc.wg.Add(1)
+	go func() {
+		defer rc.wg.Done()
+		time.Sleep(d)
+		f()
+	}()
 }
 
 func (rc *l2Rec) reaction(tx chainhash.Hash, peer string) L2Reaction {
@@ -157,7 +192,28 @@ func (rc *l2Rec) onMsg(p *netsim.Peer, m wire.Message) bool {
 			_ = gd.AddInvVect(wire.NewInvVect(iv.Type, &h))
 			key := p.Addr + "|" + h.String()
 			switch r.Kind {
+			case l2ForeignAccept, l2ForeignReject:
+				cl := r.Class
+				if cl == "" || r.Kind == l2ForeignAccept {
+					cl = "dup-have"
+				}
+				rc.send(p, l2RejectMsg(rc.foreignHash(h, r), l2ClassByName(cl)), "tx-reject-otherhash", &h, cl)
+				rc.later(time.Duration(r.DelayMs)*time.Millisecond, func() {
+					rc.mu.Lock()
+					rc.pending[key] = true
+					rc.mu.Unlock()
+					rc.send(p, gd, "tx-getdata", &h, "")
+				})
 			case l2Accept, l2Reject, l2LateReject, l2OtherHash:
+				if r.DelayMs > 0 {
+					rc.later(time.Duration(r.DelayMs)*time.Millisecond, func() {
+						rc.mu.Lock()
+						rc.pending[key] = true
+						rc.mu.Unlock()
+						rc.send(p, gd, "tx-getdata", &h, "")
+					})
+					break
+				}
 				rc.mu.Lock()
 				rc.pending[key] = true
 				rc.mu.Unlock()
@@ -191,7 +247,7 @@ func (rc *l2Rec) onMsg(p *netsim.Peer, m wire.Message) bool {
 		}
 		r := rc.reaction(h, p.Addr)
 		switch r.Kind {
-		case l2Reject, l2TwiceReject:
+		case l2Reject, l2TwiceReject, l2ForeignReject:
 			rc.send(p, l2RejectMsg(h, l2ClassByName(r.Class)), "tx-reject", &h, r.Class)
 		case l2OtherHash:
 			other := h
@@ -321,7 +377,7 @@ func l2Script(rng *rand.Rand, peers []string, profile string, allowDisconnect bo
 	switch profile {
 	case "everybody-rejects":
 		for i := range out {
-			out[i] = L2Reaction{rejKind(), l2AnyClass(rng)}
+			out[i] = L2Reaction{Kind: rejKind(), Class: l2AnyClass(rng)}
 		}
 		if n > 2 && rng.Intn(3) == 0 {
 			out[rng.Intn(n)] = L2Reaction{Kind: l2Silent}
@@ -344,9 +400,9 @@ func l2Script(rng *rand.Rand, peers []string, profile string, allowDisconnect bo
 		for j := 0; j < n; j++ {
 			switch {
 			case j < i:
-				out[j] = L2Reaction{rejKind(), l2Pick(rng, l2InvalidClasses)}
+				out[j] = L2Reaction{Kind: rejKind(), Class: l2Pick(rng, l2InvalidClasses)}
 			case j < m && rng.Intn(3) == 0:
-				out[j] = L2Reaction{rejKind(), l2Pick(rng, l2OtherClasses)}
+				out[j] = L2Reaction{Kind: rejKind(), Class: l2Pick(rng, l2OtherClasses)}
 			case j < m:
 				out[j] = L2Reaction{Kind: accKind()}
 			default:
@@ -365,9 +421,9 @@ func l2Script(rng *rand.Rand, peers []string, profile string, allowDisconnect bo
 				if rng.Intn(3) == 0 {
 					cl = l2Pick(rng, l2OtherClasses)
 				}
-				out[j] = L2Reaction{l2NoReqReject, cl}
+				out[j] = L2Reaction{Kind: l2NoReqReject, Class: cl}
 			case rng.Intn(3) == 0:
-				out[j] = L2Reaction{l2Reject, l2AnyClass(rng)}
+				out[j] = L2Reaction{Kind: l2Reject, Class: l2AnyClass(rng)}
 			default:
 				out[j] = L2Reaction{Kind: l2Silent}
 			}
@@ -380,7 +436,7 @@ func l2Script(rng *rand.Rand, peers []string, profile string, allowDisconnect bo
 			case 1:
 				out[i] = L2Reaction{Kind: l2Silent}
 			default:
-				out[i] = L2Reaction{rejKind(), l2Pick(rng, l2DupClasses)}
+				out[i] = L2Reaction{Kind: rejKind(), Class: l2Pick(rng, l2DupClasses)}
 			}
 		}
 	case "late-and-otherhash":
@@ -391,17 +447,17 @@ func l2Script(rng *rand.Rand, peers []string, profile string, allowDisconnect bo
 			case 1:
 				out[i] = L2Reaction{Kind: l2Silent}
 			case 2:
-				out[i] = L2Reaction{rejKind(), l2AnyClass(rng)}
+				out[i] = L2Reaction{Kind: rejKind(), Class: l2AnyClass(rng)}
 			case 3:
-				out[i] = L2Reaction{l2OtherHash, l2Pick(rng, l2InvalidClasses)}
+				out[i] = L2Reaction{Kind: l2OtherHash, Class: l2Pick(rng, l2InvalidClasses)}
 			default:
-				out[i] = L2Reaction{l2LateReject, l2Pick(rng, l2InvalidClasses)}
+				out[i] = L2Reaction{Kind: l2LateReject, Class: l2Pick(rng, l2InvalidClasses)}
 			}
 		}
 		// A silent peer keeps the query open until BroadcastTimeout, so the
 		// late reject arrives while the query still runs.
 		out[rng.Intn(n)] = L2Reaction{Kind: l2Silent}
-		out[rng.Intn(n)] = L2Reaction{l2LateReject, l2Pick(rng, l2InvalidClasses)}
+		out[rng.Intn(n)] = L2Reaction{Kind: l2LateReject, Class: l2Pick(rng, l2InvalidClasses)}
 	default: // uniform
 		for i := range out {
 			switch rng.Intn(12) {
@@ -410,15 +466,15 @@ func l2Script(rng *rand.Rand, peers []string, profile string, allowDisconnect bo
 			case 3:
 				out[i] = L2Reaction{Kind: l2Twice}
 			case 4, 5:
-				out[i] = L2Reaction{l2Reject, l2AnyClass(rng)}
+				out[i] = L2Reaction{Kind: l2Reject, Class: l2AnyClass(rng)}
 			case 6:
-				out[i] = L2Reaction{l2TwiceReject, l2AnyClass(rng)}
+				out[i] = L2Reaction{Kind: l2TwiceReject, Class: l2AnyClass(rng)}
 			case 7:
-				out[i] = L2Reaction{l2NoReqReject, l2AnyClass(rng)}
+				out[i] = L2Reaction{Kind: l2NoReqReject, Class: l2AnyClass(rng)}
 			case 8, 9:
 				out[i] = L2Reaction{Kind: l2Silent}
 			case 10:
-				out[i] = L2Reaction{l2OtherHash, l2AnyClass(rng)}
+				out[i] = L2Reaction{Kind: l2OtherHash, Class: l2AnyClass(rng)}
 			default:
 				if allowDisconnect {
 					out[i] = L2Reaction{Kind: l2Disconnect}
@@ -465,12 +521,18 @@ type l2Env struct {
 	hold *coHold
 }
 
+// L2ForeignFixedK is the fixed scenario in which a peer answers the inv with
+// a reject naming another transaction before it requests the announced one.
+const L2ForeignFixedK = 16
+
 func l2Family(k int) string {
 	switch {
 	case k == 0:
 		return "fixed-noreq-reject"
 	case k == 12:
 		return "cosub-fixed"
+	case k == L2ForeignFixedK:
+		return "foreign-first-fixed"
 	case k >= 13 && k <= 15, k >= 16 && k%4 == 3:
 		return "cosub"
 	case k%4 == 2:
@@ -500,6 +562,9 @@ func L2Scenario(seed int64, k int, res *l2.Result) {
 	np := 2 + rng.Intn(5)
 	if k == 0 {
 		np = 4
+	}
+	if k == L2ForeignFixedK {
+		np = 3
 	}
 	var cop coPlan
 	if coIsFamily(fam) {
@@ -556,6 +621,8 @@ func L2Scenario(seed int64, k int, res *l2.Result) {
 		e.stopInFlight()
 	case "cosub", "cosub-fixed":
 		e.coSubscribers(cop)
+	case "foreign-first-fixed":
+		e.foreignFirst()
 	}
 	e.finish()
 }
@@ -607,7 +674,7 @@ func (e *l2Env) fixed() {
 		case 0:
 			s[p] = L2Reaction{Kind: l2Accept}
 		case 1:
-			s[p] = L2Reaction{l2NoReqReject, "invalid"}
+			s[p] = L2Reaction{Kind: l2NoReqReject, Class: "invalid"}
 		default:
 			s[p] = L2Reaction{Kind: l2Silent}
 		}
@@ -623,7 +690,7 @@ func (e *l2Env) fixed() {
 		if i < 2 {
 			s2[p] = L2Reaction{Kind: l2Accept}
 		} else {
-			s2[p] = L2Reaction{l2NoReqReject, "invalid"}
+			s2[p] = L2Reaction{Kind: l2NoReqReject, Class: "invalid"}
 		}
 	}
 	c2 := e.newCall(s2, "fixed", "alone")
@@ -635,7 +702,7 @@ func (e *l2Env) fixed() {
 		case 0:
 			s3[p] = L2Reaction{Kind: l2Accept}
 		case 1:
-			s3[p] = L2Reaction{l2NoReqReject, "fee"}
+			s3[p] = L2Reaction{Kind: l2NoReqReject, Class: "fee"}
 		default:
 			s3[p] = L2Reaction{Kind: l2Silent}
 		}
@@ -650,17 +717,17 @@ func (e *l2Env) fixed() {
 		{{Kind: l2Silent}, {Kind: l2Silent}, {Kind: l2Silent}, {Kind: l2Silent}},
 		// two of three requesters say "already in mempool", nobody says
 		// invalid: no failure allowed;
-		{{Kind: l2Accept}, {l2Reject, "dup-in-mempool"}, {l2Reject, "dup-have"}, {Kind: l2Silent}},
+		{{Kind: l2Accept}, {Kind: l2Reject, Class: "dup-in-mempool"}, {Kind: l2Reject, Class: "dup-have"}, {Kind: l2Silent}},
 		// rejects naming another transaction must be ignored;
-		{{l2OtherHash, "invalid"}, {l2OtherHash, "nonstandard"}, {Kind: l2Silent}, {Kind: l2Silent}},
+		{{Kind: l2OtherHash, Class: "invalid"}, {Kind: l2OtherHash, Class: "nonstandard"}, {Kind: l2Silent}, {Kind: l2Silent}},
 		// rejects after the reject window must be ignored (the silent peers
 		// keep the query open until BroadcastTimeout);
-		{{l2LateReject, "invalid"}, {Kind: l2Silent}, {Kind: l2Silent}, {l2LateReject, "dup-conflict"}},
+		{{Kind: l2LateReject, Class: "invalid"}, {Kind: l2Silent}, {Kind: l2Silent}, {Kind: l2LateReject, Class: "dup-conflict"}},
 		// invalid share 2/4 below the threshold, 3/4 above it;
-		{{Kind: l2Accept}, {l2Reject, "invalid"}, {l2TwiceReject, "dup-spent"}, {Kind: l2Twice}},
-		{{Kind: l2Accept}, {l2Reject, "invalid"}, {l2Reject, "nonstandard"}, {l2Reject, "dup-conflict"}},
+		{{Kind: l2Accept}, {Kind: l2Reject, Class: "invalid"}, {Kind: l2TwiceReject, Class: "dup-spent"}, {Kind: l2Twice}},
+		{{Kind: l2Accept}, {Kind: l2Reject, Class: "invalid"}, {Kind: l2Reject, Class: "nonstandard"}, {Kind: l2Reject, Class: "dup-conflict"}},
 		// everybody rejects, for different reasons.
-		{{l2Reject, "fee"}, {l2Reject, "invalid"}, {l2Reject, "fee"}, {l2NoReqReject, "dup-known"}},
+		{{Kind: l2Reject, Class: "fee"}, {Kind: l2Reject, Class: "invalid"}, {Kind: l2Reject, Class: "fee"}, {Kind: l2NoReqReject, Class: "dup-known"}},
 	}
 	for _, sh := range fixedShapes {
 		sc := map[string]L2Reaction{}
@@ -673,6 +740,109 @@ func (e *l2Env) fixed() {
 			return
 		}
 	}
+}
+
+// foreignFirst (fixed structure, seeded delays): a peer answers the client's
+// inv with a reject that names ANOTHER transaction (a previously broadcast one
+// or a hash nobody has) and only 30-100 ms later requests the announced
+// transaction. Such a reject says nothing about the announced transaction: the
+// peer's request and its own later verdict count like anybody's.
+//
+//	warm-up  everybody requests and accepts (gives "the previous transaction");
+//	shape 1  A: foreign reject, then requests and accepts; B requests (after A)
+//	         and rejects as invalid; C silent or rejects for a non-invalid
+//	         reason without requesting: invalid share 1/2 or 1/3, A accepted;
+//	shape 2  A: foreign reject, then requests and rejects as invalid; B, C
+//	         silent: the only replying peer rejected;
+//	shape 3  A: foreign reject, then requests and accepts; B accepts; C silent
+//	         or "already in mempool" without requesting;
+//	then one block: what was accepted is announced again to every peer, what
+//	failed never is.
+//
+// Nothing is hard-coded: the general oracle judges every call.
+func (e *l2Env) foreignFirst() {
+	A, B, C := e.peers[0], e.peers[1], e.peers[2]
+	delay := func() int { return 30 + e.rng.Intn(71) }
+	foreign := func() string {
+		if e.rng.Intn(2) == 0 {
+			return "prev"
+		}
+		return "random"
+	}
+	do := func(s map[string]L2Reaction, profile string) bool {
+		c := e.newCall(s, profile, "alone")
+		e.rc.run(c)
+		return e.awaitCalls(c)
+	}
+	if !do(map[string]L2Reaction{A: {Kind: l2Accept}, B: {Kind: l2Accept}, C: {Kind: l2Accept}}, "foreign-warmup") {
+		return
+	}
+	d1 := delay()
+	third := L2Reaction{Kind: l2Silent}
+	if e.rng.Intn(2) == 0 {
+		third = L2Reaction{Kind: l2NoReqReject, Class: "fee"}
+	}
+	if !do(map[string]L2Reaction{
+		A: {Kind: l2ForeignAccept, DelayMs: d1, Foreign: foreign()},
+		B: {Kind: l2Reject, Class: l2Pick(e.rng, l2InvalidClasses), DelayMs: d1 + 40 + e.rng.Intn(60)},
+		C: third}, "foreign-first-accept-vs-invalid") {
+		return
+	}
+	if !do(map[string]L2Reaction{
+		A: {Kind: l2ForeignReject, Class: l2Pick(e.rng, l2InvalidClasses), DelayMs: delay(), Foreign: foreign()},
+		B: {Kind: l2Silent}, C: {Kind: l2Silent}}, "foreign-first-only-peer-rejects") {
+		return
+	}
+	third = L2Reaction{Kind: l2Silent}
+	if e.rng.Intn(2) == 0 {
+		third = L2Reaction{Kind: l2NoReqReject, Class: "dup-in-mempool"}
+	}
+	if !do(map[string]L2Reaction{
+		A: {Kind: l2ForeignAccept, DelayMs: delay(), Foreign: foreign()},
+		B: {Kind: l2Accept, DelayMs: e.rng.Intn(50)},
+		C: third}, "foreign-first-accept") {
+		return
+	}
+	var acc, rej []*l2Call
+	for _, c := range e.calls {
+		if c.Err == nil {
+			acc = append(acc, c)
+		} else {
+			rej = append(rej, c)
+		}
+	}
+	if !e.settle() {
+		e.res.Inconcl("network never at rest before the next block")
+		return
+	}
+	seq, ok := e.announce()
+	if !ok {
+		return
+	}
+	missed, conclusive := e.awaitRebroadcast(seq, acc)
+	if len(missed) > 0 && conclusive {
+		// as in the rebroadcast family: only a second block event, issued
+		// while the client is provably at rest, makes a miss a violation.
+		e.res.Count("l2_rebroadcast_second_trigger", 1)
+		seq2, ok := e.announce()
+		if !ok {
+			return
+		}
+		missed2, conclusive2 := e.awaitRebroadcast(seq2, missed)
+		for _, c := range missed2 {
+			if !conclusive2 {
+				break
+			}
+			miss := e.missingPeers(c, seq2)
+			e.res.Violate(evid.Sig("c15/l2/no-rebroadcast-after-block", "accepted-after-reject-for-other-hash"),
+				fmt.Sprintf("SendTransaction(%s) returned nil; two consecutive blocks not containing it were announced by every peer and reported by the client as best block "+
+					"while the network was at rest, but %d of %d connected peers received no new inv for it after either, and the network then stood still for 5 s",
+					c.Hash.String()[:12], len(miss), len(e.peers)),
+				e.witness(c, map[string]any{"peers_without_inv": miss, "announce_seqs": []int64{seq, seq2}}))
+		}
+	}
+	e.settle()
+	e.rejectedNeverAgain(rej)
 }
 
 func (e *l2Env) verdict() {
@@ -734,7 +904,7 @@ func (e *l2Env) scriptMempool() map[string]L2Reaction {
 		if e.rng.Intn(2) == 0 {
 			cl = "dup-have"
 		}
-		s[p] = L2Reaction{l2Reject, cl}
+		s[p] = L2Reaction{Kind: l2Reject, Class: cl}
 	}
 	return s
 }
@@ -742,7 +912,7 @@ func (e *l2Env) scriptMempool() map[string]L2Reaction {
 func (e *l2Env) scriptRejected() map[string]L2Reaction {
 	s := map[string]L2Reaction{}
 	for _, p := range e.peers {
-		s[p] = L2Reaction{l2Reject, l2Pick(e.rng, l2InvalidClasses)}
+		s[p] = L2Reaction{Kind: l2Reject, Class: l2Pick(e.rng, l2InvalidClasses)}
 	}
 	return s
 }
@@ -1218,6 +1388,22 @@ func (e *l2Env) finish() {
 			continue
 		}
 		res.Count("l2_calls_evaluated", 1)
+		if !e.stop {
+			clear, close := l2Unserved(evs, c, e.peers, 4*e.rc.window)
+			res.Count("l2_requests_checked_for_delivery", int64(len(v.Requested)))
+			res.Count("l2_counted_only_request_unserved_close_to_return", int64(len(close)))
+			if len(clear) > 0 {
+				res.Violate(evid.Sig("c15/l2/requested-tx-never-sent", v.Shape),
+					fmt.Sprintf("SendTransaction(%s): peers %v requested the transaction (getdata written %v or more before the call returned, no reject of it from them before) "+
+						"and were never sent it; what they would have answered was not counted (returned: %q)", v.Tx, clear, 4*e.rc.window, v.Err),
+					e.witness(c, map[string]any{"peers_requested_but_never_sent": clear}))
+			}
+		}
+		for p, o := range v.Observed {
+			if strings.Contains(o, "after-reject-for-other-hash") || (c.Script[p].Kind == l2ForeignReject && strings.HasPrefix(o, "req-reject")) {
+				res.Count("l2_foreign_first_peers_judged", 1)
+			}
+		}
 		res.Count("l2_getdata_peers", int64(len(v.Requested)))
 		res.Count("l2_rejecting_peers_in_time", int64(len(v.Rejected)))
 		if v.Replying > 0 {
